@@ -1,7 +1,8 @@
 """C18 Every endpoint and inter-node request enforces its permission.
 (A) Perm.tla: table endpoint / inter-node command family -> required permissions (read off the
     handlers; GET_NODE_META, the CDC high-water-mark update, LOAD_CHUNK, '/', OPTIONS carry none by
-    design), credential stores over {user, all-users entry} x permission sets {required.., other, all},
+    design), credential stores over {user, all-users entry} x permission sets {required.., siblings.., all}
+    (siblings = the permissions closest to the required ones that must NOT authorise the family),
     presentations none / blank / unknown user / wrong password / right password; the authorisation
     rule and the decision procedure as coded are those of Auth.tla (C19, INSTANCE).  One request is
     followed through the handler (decide -> header -> perform | stream | deny).  TLC exhaustive over
@@ -9,8 +10,9 @@
     no content byte, denied => clean, authorised => performed.  Negative controls: NoBodyAfterError
     (streaming handler continues after its error header), and the permission check of EVERY family
     removed in turn (one TLC run, violations collected per family, all permissioned families demanded).
-(B) every case TLC enumerates carries the expected verdict; a stratified sample (quick) / all denied
-    cases up to a cap plus allowed ones (thorough) is sent AT THE WIRE LEVEL -- raw HTTP read to EOF,
+(B) every case TLC enumerates carries the expected verdict; every (family, near-miss permission) pair
+    (each sibling / partial permission alone, for the user and for the all-users entry, and in
+    combination) plus a stratified sample (larger in the thorough tier) is sent AT THE WIRE LEVEL -- raw HTTP read to EOF,
     raw mux byte + length-prefixed protobuf read until the server closes -- to the leader and to a
     follower of a live 3-voter + 1-non-voter cluster whose database holds a sentinel and whose
     credential store is the real auth.CredentialsStore loaded from the case's JSON.  Not authorised:
@@ -41,28 +43,76 @@ def fam_key(f):
     return "endpoint=%s:method=%s" % (path, method)
 
 
+def near_miss_stores(c0):
+    """the stores every family must be replayed with: each sibling permission (and, where several are
+    required, each required permission) ALONE, held by the authenticated user and held by the all-users
+    entry; all siblings together; all siblings plus all-but-one of the required permissions; and the empty
+    store (anchor for the minimal key).  Returned as (pres, U, S) triples that must not authorise."""
+    sib = sorted(c0["sib"])
+    alts = [sorted(a) for a in c0["req"]]
+    partial = sorted({p for a in alts if len(a) > 1 for p in a})
+    out = [("right", (), ())]
+    for p in sib + partial:
+        out.append(("right", (p,), ()))
+        out.append(("none", (), (p,)))
+    if len(sib) > 1:
+        out.append(("right", tuple(sib), ()))
+    for a in alts:
+        if len(a) > 1:
+            for drop in a:
+                out.append(("right", tuple(sorted(set(sib) | (set(a) - {drop}))), ()))
+    return out
+
+
 def select(cases, ctx):
-    """quick: per (family, role, presentation) k denied cases, per (family, role) a few allowed ones
-    (one per distinct reason); thorough: the same with larger k."""
+    """every (family, near-miss permission) pair on the leader (thorough: on a follower too), then per
+    (family, role, presentation) k more denied cases, per (family, role) a few allowed ones (one per distinct
+    reason); thorough: larger k."""
     rnd = random.Random(ctx.seed)
     kd = ctx.pick(1, 12)
     ka = ctx.pick(2, 8)
     ka_eff = ctx.pick(1, 5)
     groups = collections.defaultdict(list)
+    index = {}
     for c in cases:
         groups[(c["f"], c["role"], c["auth"], c["pres"] if not c["auth"] else "")].append(c)
-    out = []
+        index[(c["f"], c["role"], c["pres"], tuple(sorted(c["U"])), tuple(sorted(c["S"])))] = c
+    out, taken = [], set()
+
+    def take(c):
+        if id(c) not in taken:
+            taken.add(id(c))
+            out.append(c)
+    fams = {}
+    for c in cases:
+        fams.setdefault(c["f"], c)
+    pairs = set()
+    for f, c0 in sorted(fams.items()):
+        if not c0["sib"] and all(len(a) < 2 for a in c0["req"]):
+            continue
+        for role in ctx.pick(["leader"], ["leader", "follower"]):
+            for pres, U, S in near_miss_stores(c0):
+                c = index.get((f, role, pres, U, S))
+                if c is None:
+                    raise vlib.Undecided("near-miss store %s/%s/%s of %s is not in the space TLC enumerated" % (pres, U, S, f))
+                if c["auth"]:
+                    raise vlib.Undecided("near-miss store %s/%s/%s authorises %s: sibling table wrong" % (pres, U, S, f))
+                c["must"] = True
+                take(c)
+                for p in set(U) | set(S):
+                    pairs.add((f, p))
     for (f, role, auth, pres), g in sorted(groups.items()):
         rnd.shuffle(g)
         if not auth:
             # near misses first: stores that grant as much as possible without authorising the request
-            # (some but not all of the required permissions, the related "other" permission, "all" held by
-            # a user who is not authenticated), the rest in seeded random order
+            # (some but not all of the required permissions, sibling permissions, "all" held by a user who
+            # is not authenticated), the rest in seeded random order
             def score(c):
-                req = set(p for a in c["req"] for p in a)
-                return len(req & set(c["U"])) + len(req & set(c["S"])) + ("other" in c["U"]) + ("other" in c["S"]) + ("all" in c["U"])
+                req = set(p for a in c["req"] for p in a) | set(c["sib"])
+                return len(req & set(c["U"])) + len(req & set(c["S"])) + ("all" in c["U"])
             g.sort(key=lambda c: -score(c))
-            out += g[:kd]
+            for c in g[:kd]:
+                take(c)
             continue
         # allowed: distinct reasons first
         def reason(c):
@@ -79,18 +129,27 @@ def select(cases, ctx):
                 picked.append(c)
         rest = [c for c in g if c not in picked]
         k = ka_eff if g[0]["eff"] else ka
-        out += (picked + rest)[:k]
+        for c in (picked + rest)[:k]:
+            take(c)
     # group by family so that membership set-up (n4 in / out) changes rarely; effects last within a family
     fam_order = {f: i for i, f in enumerate(sorted({c["f"] for c in out}))}
     out.sort(key=lambda c: (fam_order[c["f"]], c["role"], c["auth"], ORDER.index(c["pres"])))
     for i, c in enumerate(out):
         c["id"] = i + 1
-    return out
+    return out, len(pairs)
+
+
+def holds(c):
+    """permissions effectively available to the presenter of a case"""
+    h = set(c["S"])
+    if c["pres"] == "right":
+        h |= set(c["U"])
+    return frozenset(h)
 
 
 def judge(ctx, cases, obs, report):
-    """compare observations with TLC's expectation; report(key, what, artefact) for every violation.
-    Returns (stats, anomalies)."""
+    """compare observations with TLC's expectation; report(kind, case, what, artefact) for every violation.
+    Returns (stats, anomalies, families whose effect / content was never seen)."""
     byid = {c["id"]: c for c in cases}
     st = collections.Counter()
     seen_eff, seen_con, need_eff, need_con = set(), set(), set(), set()
@@ -100,21 +159,20 @@ def judge(ctx, cases, obs, report):
         if o.get("skipped"):
             st["skipped"] += 1
             continue
-        fk = fam_key(c["f"])
-        tail = "%s:pres=%s:at=%s" % (fk, pres_class(c), c["role"])
         art = {"case": c, "observation": o}
         if not c["auth"]:
             st["not_authorised"] += 1
             if o["leak"]:
-                report("perm:leak:" + tail, "database content (sentinel, found in %s) in the response to a request that is not authorised: %s -> %s"
+                report("leak", c, "database content (sentinel, found in %s) in the response to a request that is not authorised: %s -> %s"
                        % (o["leak_in"], o["sent"], o["head"]), art)
             if o["changed"]:
-                report("perm:side-effect:" + tail, "state changed (%s) by a request that is not authorised: %s" % (",".join(o["changed"]), o["sent"]), art)
+                report("side-effect", c, "state changed (%s) by a request that is not authorised: %s" % (",".join(o["changed"]), o["sent"]), art)
             if not o["denied"]:
                 # a refusal is a 401 / "unauthorized"; anything else means the handler went on
-                report("perm:performed-without-perm:" + tail, "request that is not authorised was not refused: status=%s err=%r %s" % (o["status"], o["err"], o["head"]), art)
+                report("performed-without-perm", c, "request that is not authorised (credentials %s, presented: %s) was not refused: status=%s err=%r %s"
+                       % (o["creds"], c["pres"], o["status"], o["err"], o["head"]), art)
             elif o["extra"] > 0:
-                report("perm:body-after-error:" + tail, "%d bytes follow the 'unauthorized' response frame" % o["extra"], art)
+                report("body-after-error", c, "%d bytes follow the 'unauthorized' response frame" % o["extra"], art)
             if o.get("flaky"):
                 st["flaky_first_attempt"] += 1
         else:
@@ -133,10 +191,26 @@ def judge(ctx, cases, obs, report):
     return st, anomalies, (need_eff - seen_eff), (need_con - seen_con)
 
 
+def keyed(found):
+    """found = [(kind, case, what, artefact)] -> [(key, what, artefact)].  The key names kind, family,
+    presentation, node role and the MINIMAL set of permissions held by the presenter with which the same
+    misbehaviour of that family was seen in this run, with any presentation on any node (so a check that is missing altogether is keyed
+    holds=none, a sibling permission accepted by mistake is keyed by that permission)."""
+    groups = collections.defaultdict(set)
+    for kind, c, what, art in found:
+        groups[(kind, c["f"])].add(holds(c))
+    out = []
+    for kind, c, what, art in found:
+        hs = [h for h in groups[(kind, c["f"])] if h <= holds(c)]
+        h = min(hs, key=lambda h: (len(h), sorted(h)))
+        out.append(("perm:%s:%s:pres=%s:holds=%s:at=%s" % (kind, fam_key(c["f"]), pres_class(c), "+".join(sorted(h)) or "none", c["role"]), what, art))
+    return out
+
+
 def run(ctx):
     ctx.harness()      # build first: the TLC runs below are started in parallel
     jobs = {
-        "mc": lambda: vlib.tlc_mc(ctx, "Perm", "Perm_mc.cfg", workers=2, coverage=True),
+        "mc": lambda: vlib.tlc_mc(ctx, "Perm", ctx.pick("Perm_mc.cfg", "Perm_mc_full.cfg"), workers=2, coverage=True),
         "neg_body": lambda: vlib.tlc_neg(ctx, "Perm", "Perm_neg_NoBodyAfterError.cfg", expect="NoContentUnlessAuth", workers=1),
     }
     if ctx.thorough:     # the per-family run (negall) subsumes these; kept as named witnesses
@@ -146,7 +220,7 @@ def run(ctx):
         "neg_stream": lambda: vlib.tlc_neg(ctx, "Perm", "Perm_neg_Check.cfg", expect="OnlyIfAuthorized", workers=1)})
     jobs.update({
         "negall": lambda: vlib.tlc(ctx, "Perm", "Perm_negall.cfg", workers=1, coverage=False, expect_violation=True),
-        "gen": lambda: vlib.tlc_cases(ctx, "Perm", "Perm_gen.cfg", timeout=1800),
+        "gen": lambda: vlib.tlc_cases(ctx, "Perm", ctx.pick("Perm_gen.cfg", "Perm_gen_full.cfg"), timeout=1800, heap="12g"),
     })
     res = {}
     with concurrent.futures.ThreadPoolExecutor(max_workers=4) as ex:
@@ -161,10 +235,10 @@ def run(ctx):
     ctx.cov.setdefault("negative_controls", []).append({"cfg": "Perm_negall.cfg", "families_with_counterexample": nfam})
     allcases, _ = res["gen"]
     allcases = [c for c in allcases if "f" in c]
-    if len(allcases) < 40000:
+    if len(allcases) < 50000:
         raise vlib.Undecided("generator produced %d cases" % len(allcases))
     fams = sorted({c["f"] for c in allcases})
-    cases = select(allcases, ctx)
+    cases, npairs = select(allcases, ctx)
     inp = os.path.join(ctx.scratch, "perm.cases.ndjson")
     out = os.path.join(ctx.scratch, "perm.obs.ndjson")
     vlib.write_nd(inp, cases)
@@ -174,7 +248,14 @@ def run(ctx):
     if len(obs) != len(cases):
         raise vlib.Undecided("driver answered %d of %d cases" % (len(obs), len(cases)))
 
-    st, anomalies, blind_eff, blind_con = judge(ctx, cases, obs, ctx.violation)
+    found = []
+    st, anomalies, blind_eff, blind_con = judge(ctx, cases, obs, lambda *a: found.append(a))
+    for key, what, art in keyed(found):
+        ctx.violation(key, what, art)
+    must = {c["id"] for c in cases if c.get("must")}
+    ran = {o["id"] for o in obs if not o.get("skipped")}
+    if must - ran:
+        raise vlib.Undecided("%d near-miss cases were not replayed" % len(must - ran))
     # vacuity of the binding: for every family whose action has an effect / returns content the driver must
     # have SEEN that effect / content in an authorised case, else a wrongly performed action would go unseen
     if blind_eff or blind_con:
@@ -188,12 +269,12 @@ def run(ctx):
         c2 = dict(c)
         c2["auth"] = not c["auth"] if c["auth"] else c["auth"]
         flipped.append(c2)
-    found = []
-    judge(ctx, flipped, obs, lambda k, w, a: found.append(k))
-    kinds = {k.split(":")[1] for k in found}
+    found2 = []
+    judge(ctx, flipped, obs, lambda kind, c, w, a: found2.append(kind))
+    kinds = set(found2)
     if not {"leak", "side-effect", "performed-without-perm"} <= kinds:
         raise vlib.Undecided("binding self-test: with flipped expectations the comparator reported only %s" % sorted(kinds))
-    ctx.cov.setdefault("binding_selftests", []).append({"flipped_expectations_reported": len(found), "kinds": sorted(kinds)})
+    ctx.cov.setdefault("binding_selftests", []).append({"flipped_expectations_reported": len(found2), "kinds": sorted(kinds)})
 
     ctx.add("evaluations", len(cases))
     ctx.add("traces_validated_against_impl", len(obs) - st["skipped"])
@@ -202,6 +283,8 @@ def run(ctx):
                        "(family, role, presentation); non-trivial = the case is not authorised (refusal, no sentinel, state unchanged demanded)" % (len(allcases), len(fams)))
     ctx.cov["cases_enumerated"] = len(allcases)
     ctx.cov["families"] = len(fams)
+    ctx.cov["family_near_miss_permission_pairs_replayed"] = npairs
+    ctx.cov["near_miss_cases_replayed"] = len(must)
     ctx.cov["driver"] = drv
     ctx.cov["verdicts"] = dict(st)
     ctx.cov["allowed_but_refused"] = anomalies[:40]
